@@ -31,7 +31,7 @@ REQUIRED_MONITORS = ["weights_nonnegative", "weights_sum_to_one", "flat_unchange
 REQUIRED_BUCKETS = {"quick": ["geom:pinhole", "geom:slit(L,0)", "geom:slit(0,W)", "geom:slit(L,W)", "geom:2d",
                               "grid:linear", "grid:log", "grid:irregular", "qcalc:default", "qcalc:user", "n:1", "n:2",
                               "sigma>q", "zero_width", "grid_extension_hits_zero", "perpoint", "directmodel", "directmodel:mixed-zero", "directmodel:widths-changed-on-same-data-object", "q-order:not-ascending", "acc:low", "acc:med", "acc:high",
-                              "acc:xhigh", "2d:on-axis-pixels", "q-grid:value-listed-twice", "q-grid:end-point-listed-twice", "pinhole:nsigma-given", "2d:stale-q-column"]}
+                              "acc:xhigh", "2d:on-axis-pixels", "q-grid:value-listed-twice", "q-grid:end-point-listed-twice", "pinhole:nsigma-given", "2d:stale-q-column", "directmodel:2d-centre-pixel"]}
 REQUIRED_BUCKETS["thorough"] = REQUIRED_BUCKETS["quick"]
 
 _state = {"installed": False, "current": None, "evals": 0}
@@ -458,6 +458,13 @@ def run_dm(case, rec):
     setups.append(("slit-width", d))
     d2 = sdata.empty_data2D(np.linspace(-0.1, 0.1, 12), resolution=0.05)
     setups.append(("2d", d2))
+    # a detector image centred on the beam with an odd number of pixels: one pixel sits at q = 0 exactly
+    ax = np.linspace(-0.1, 0.1, 11)
+    ax[5] = 0.0
+    setups.append(("2d-centre-pixel", sdata.empty_data2D(ax, resolution=0.05)))
+    d3 = sdata.empty_data2D(ax, resolution=0.05)
+    d3.dqx_data = d3.dqy_data = None
+    setups.append(("2d-centre-pixel-no-resolution", d3))
     # per-point widths that mix zero and non-zero entries (merged data sets), in several proportions
     for frac in (0.03, 0.3, 0.9):
         d = sdata.empty_data1D(q, resolution=0.08)
@@ -494,6 +501,17 @@ def run_dm(case, rec):
             rec.bucket("directmodel:mixed-zero" if "mixed" in name else "directmodel:pinhole")
         pars = {"radius": 60.0, "sld": 1.0, "sld_solvent": 6.0}
         base = calc(scale=1.0, background=0.0, **pars)
+        if name.startswith("2d"):
+            qc_ = calc.resolution.q_calc
+            qabs_ = np.hypot(np.asarray(qc_[0], float), np.asarray(qc_[1], float))
+            rec.check("q_calc_strictly_positive", bool(np.all(np.isfinite(qabs_)) and np.all(qabs_ > 0)),
+                      {"via": "DirectModel", "setup": name, "nonfinite": int(np.sum(~np.isfinite(qabs_))), "zeros": int(np.sum(qabs_ == 0))})
+            flat_ = np.asarray(calc.resolution.apply(np.full(len(qabs_), 2.5)), float)
+            rec.check("flat_unchanged", bool(np.all(np.abs(flat_ - 2.5) <= 1e-12)),
+                      {"via": "DirectModel", "setup": name, "returned": flat_[:6], "nonfinite": int(np.sum(~np.isfinite(flat_)))})
+            rec.check("theory_finite_for_every_returned_pixel", bool(np.all(np.isfinite(np.asarray(base, float)))),
+                      {"via": "DirectModel", "setup": name, "nonfinite": int(np.sum(~np.isfinite(np.asarray(base, float))))})
+            rec.bucket("directmodel:" + name)
         for _ in range(3):
             s, b = float(rng.uniform(0.01, 5)), float(rng.uniform(0, 3))
             got = calc(scale=s, background=b, **pars)
